@@ -56,6 +56,8 @@ for i in ids:
     if i in claimed:
         cat,tech,eng,text,note=claimed[i]
         text+=tiny.get(i,"")
+        text+="; both tiers also run histories of sizes beyond the usual (profiles large*/largegraph*: 20-90 constructors, scope chains up to 12, 8-16 results or parameters, 30-70 Invokes; DESIGN 16.11)"
+        if i=="C05": text+="; sampled digraphs go up to 260 nodes and every search runs under a logical budget of successor look-ups (hook VerifIsAcyclicSteps)"
         if i in tiny: tech+=" + bounded-exhaustive short histories"
         checks.append({"property_id":i,"quick_cmd":f"./verif.sh check {i} quick","thorough_cmd":f"./verif.sh check {i} thorough",
           "evidence_file":f"/verif/evidence/{i}.json","replay_cmd_template":"./verif.sh replay {path}","engine":eng,
